@@ -585,6 +585,20 @@ static int cmd_batch(const Args &a) {
             char ms[200]; snprintf(ms, sizeof ms, "history replay: %zu earlier carry runs of the same worker process minimised to %zu, then the seed; %d re-executions", hist0, hist.size(), trials);
             v.set("replay", path).set("gate", hit ? "ok" : "fail").set("min_summary", ms);
             if (!hit) ++gate_fail;
+        } else if (!a.no_min && vc.oracle == "wall_timeout" && ++nclass <= 60) {
+            // the wall-clock watchdog is the only verdict that depends on the machine: a run that exceeded it under load but completes
+            // when executed again (alone, with four times the limit) says nothing about the library.  A genuine hang between two
+            // yield points is deterministic and fails this re-execution as well.
+            Case c; bool again = true;
+            if (regen_case(a, vc.first_seed, c)) {
+                J r1 = run_forked(c, a.timeout_s * 4, errdir, 0);
+                again = r1.str("end") == "wall_timeout" || r1.str("end") == "machinery";
+            }
+            if (again) {
+                MinResult mr = minimise_and_write(c, vc.prop, vc.sig, a.replay_dir, errdir, a.timeout_s * 4, 30, a.flavour);
+                v.set("replay", mr.path).set("gate", mr.gate_ok ? "ok" : "fail").set("min_summary", mr.summary);
+                if (!mr.gate_ok) ++gate_fail;
+            } else v.set("gate", "transient").set("min_summary", "watchdog limit exceeded once under load; the same case completed when re-executed alone");
         } else if (!a.no_min && ++nclass <= 60) {
             Case c;
             if (!regen_case(a, vc.first_seed, c)) { v.set("gate", "fail").set("min_summary", "case could not be regenerated"); ++gate_fail; viols.push(v); continue; }
